@@ -145,6 +145,25 @@ class Tag(object):
 
 
 _SUBCLASSES = {}
+_SELECTOR_SUBCLASS = []
+
+
+def selector_subclass():
+    import lena.flow
+    if not _SELECTOR_SUBCLASS:
+        class Above(lena.flow.Selector):
+            """Selects values for which function(data) exceeds a threshold."""
+
+            def __init__(self, function, threshold):
+                super(Above, self).__init__(function)
+                self._function = function
+                self._threshold = threshold
+
+            def __call__(self, value):
+                return self._function(_num(data_of(value))) > self._threshold
+        _SELECTOR_SUBCLASS.append(Above)
+    return _SELECTOR_SUBCLASS[0]
+
 
 
 def seq_subclass(mode):
@@ -195,6 +214,10 @@ def build(r):
                 raise ValueError("predicate fails on %r" % (d,))
             return p(d)
         return lena.flow.Filter(lena.flow.Selector(raising_pred, raise_on_error=False))
+    if k == "filtersub":
+        # a user's subclass of Selector that overrides __call__ (applies the function to the
+        # data part and compares the result with a threshold)
+        return lena.flow.Filter(selector_subclass()(DataFn(r[1]), r[2]))
     if k == "slice":
         return lena.flow.Slice(*r[1])
     if k == "count":
